@@ -87,9 +87,14 @@ type Sim struct {
 	OnQuiescent  func() error
 	InvariantErr error
 
-	Trace      []TraceEntry
-	TraceCap   int
-	digest     uint64
+	Trace    []TraceEntry
+	TraceCap int
+	digest   uint64
+	// frozen: the digest stops at the first cancellation-type event. After a
+	// cancel, a select inside risor may have both ctx.Done and its channel
+	// ready and the Go runtime picks at random (DESIGN 2.6), so traces are
+	// only exact up to that instant.
+	frozen     bool
 	start      time.Time
 	SiteCount  map[string]int
 	Preempts   int
@@ -389,6 +394,9 @@ func (s *Sim) record(task int, site string) {
 	if len(s.Trace) < s.TraceCap {
 		s.Trace = append(s.Trace, TraceEntry{task, site})
 	}
+	if s.frozen {
+		return
+	}
 	h := s.digest
 	h ^= uint64(task + 1)
 	h *= 1099511628211
@@ -403,7 +411,12 @@ func (s *Sim) record(task int, site string) {
 func (s *Sim) Digest() uint64 { return s.digest }
 
 // Mark adds a harness event (a fault, a phase change) to the trace.
-func (s *Sim) Mark(name string) { s.record(-1, name) }
+func (s *Sim) Mark(name string) {
+	s.record(-1, name)
+	if strings.Contains(name, "cancel") || strings.Contains(name, "advance-clock") || strings.Contains(name, "parallel-window") {
+		s.frozen = true
+	}
+}
 
 // Tasks returns a snapshot of the task table.
 func (s *Sim) Tasks() []*Task {
